@@ -61,11 +61,48 @@ EXTRA = {
 RATE_FORMULA = {"Calcite": "CaCO3", "Gypsum": "CaSO4", "Quartz": "SiO2"}
 
 
+# TRANSPORT / ADVECTION data that a later block without the option inherits from the previous block ("column data are
+# retained").  A first block states a random subset; every follow-up block omits most options (inherits) and restates a few
+# with another value - so each retained item appears as "defined in simulation i, relied upon in simulation j > i".
+def TR_OPTS(rng, nc):
+    return {
+        "lengths": rng.choice(["0.1", "0.05", "0.02"]),
+        "dispersivities": rng.choice(["0.01", "0.002", "0"]),
+        "time_step": rng.choice(["100", "720", "3600"]),
+        "flow_direction": rng.choice(["forward", "back", "diffusion_only"]),
+        "boundary_conditions": rng.choice(["flux flux", "constant closed", "closed closed", "constant flux", "flux constant"]),
+        "punch_cells": rng.choice(["%d-%d" % (rng.randint(1, nc), nc), str(rng.randint(1, nc)), "1 %d" % nc]),
+        "print_cells": rng.choice(["1", str(nc), "1-%d" % nc]),
+        "punch_frequency": rng.choice(["1", "2", "3"]),
+        "print_frequency": rng.choice(["1", "2"]),
+        "diffusion_coefficient": rng.choice(["0", "0.3e-9", "1e-9"]),
+        "correct_disp": rng.choice(["true", "false"]),
+        "thermal_diffusion": rng.choice(["2.0 1e-6", "1.5 0.5e-6"]),
+        "warnings": rng.choice(["true", "false"]),
+        "initial_time": rng.choice(["0", "500", "7200"]),
+    }
+
+
+def AD_OPTS(rng, nc):
+    return {
+        "punch_cells": rng.choice(["%d-%d" % (rng.randint(1, nc), nc), str(rng.randint(1, nc))]),
+        "print_cells": rng.choice(["1", "1-%d" % nc]),
+        "punch_frequency": rng.choice(["1", "2"]),
+        "print_frequency": rng.choice(["1", "2"]),
+        "time_step": rng.choice(["100", "3600"]),
+        "initial_time": rng.choice(["0", "500", "7200"]),
+        "warnings": rng.choice(["true", "false"]),
+    }
+
+
 class World:
     def __init__(self, profile="phreeqc"):
         self.prof = PROFILES[profile]
-        self.tr = None            # parameters of the last TRANSPORT block (they persist when a later block omits them)
+        self.tr = None            # cells of the last TRANSPORT block
         self.adv = None
+        self.tr_set = set()       # TRANSPORT options stated by some earlier block (a follow-up block may rely on them)
+        self.ad_set = set()
+        self.theme = None         # "transport" / "advect": most simulations of this input work on one column
         self.sol = set()
         self.pp = set()
         self.ex = set()
@@ -303,6 +340,8 @@ def simulation(rng, w, idx):
     # ---- what this simulation does
     kind = rng.choice(["react", "react", "react", "kin", "mix", "transport", "advect", "cells", "copy", "delete", "none", "dump",
                        "surface", "gas", "modify"])
+    if w.theme and (idx == 0 or rng.random() < 0.55):
+        kind = w.theme                                   # column story: first block early, follow-up blocks later
     if kind in ("react", "kin", "surface", "gas") and not w.sol:
         kind = "none"
     if kind == "surface" and not w.prof["surface"]:
@@ -368,7 +407,7 @@ def simulation(rng, w, idx):
     elif kind in ("transport", "advect"):
         nc = rng.randint(2, 4)
         prev = w.tr if kind == "transport" else w.adv
-        if prev and rng.random() < 0.6:
+        if prev and rng.random() < (0.9 if w.theme else 0.6):
             nc = prev                                  # same column again: the block may then be a partial one
         if w.cells < nc:
             for c in range(0, nc + 1):
@@ -379,29 +418,53 @@ def simulation(rng, w, idx):
             t.append(f"EXCHANGE 1-{nc}\n X {g(rng, -3, -2)}\n -equilibrate 1\n")
             w.ex.update(range(1, nc + 1))
         if kind == "transport":
-            if w.tr == nc and rng.random() < 0.5:
-                # a later TRANSPORT block that only changes -shifts (and maybe the clock): everything else persists
-                t.append(f"TRANSPORT\n -shifts {rng.randint(1, 3)}\n" +
-                         (f" -initial_time {rng.choice(['0', '1000', '86400'])}\n" if rng.random() < 0.4 else ""))
-                w.count("TRANSPORT_partial")
+            opts = TR_OPTS(rng, nc)
+            if w.tr == nc and rng.random() < 0.75:
+                # follow-up block on the same column: omitted options are inherited from the previous block
+                lines = ["TRANSPORT"]
+                if rng.random() < 0.85:
+                    lines.append(f" -shifts {rng.randint(1, 3)}")
+                for k in sorted(opts):
+                    if rng.random() < 0.15:
+                        lines.append(f" -{k} {opts[k]}")
+                        w.tr_set.add(k)
+                    elif k in w.tr_set:
+                        w.count("tr_inherit_" + k)
+                t.append("\n".join(lines) + "\n")
+                w.count("TRANSPORT_followup")
             else:
-                t.append(f"TRANSPORT\n -cells {nc}\n -shifts {rng.randint(1, 3)}\n -lengths {rng.choice(['0.1', '0.05'])}\n"
-                         f" -dispersivities {rng.choice(['0.01', '0.002', '0'])}\n -time_step {rng.choice(['100', '3600'])}\n"
-                         f" -flow_direction {rng.choice(['forward', 'back', 'diffusion_only'])}\n"
-                         f" -boundary_conditions {rng.choice(['flux flux', 'constant closed', 'closed closed', 'constant flux'])}\n"
-                         f" -punch_cells {rng.randint(1, nc)}-{nc}\n -print_cells 1\n" +
-                         (f" -initial_time {rng.choice(['500', '7200'])}\n" if rng.random() < 0.2 else ""))
+                lines = ["TRANSPORT", f" -cells {nc}", f" -shifts {rng.randint(1, 3)}"]
+                w.tr_set = set()
+                for k in sorted(opts):
+                    if rng.random() < 0.6 or k in ("lengths", "time_step"):
+                        lines.append(f" -{k} {opts[k]}")
+                        w.tr_set.add(k)
+                t.append("\n".join(lines) + "\n")
                 w.tr = nc
                 w.count("TRANSPORT")
         else:
-            if w.adv == nc and rng.random() < 0.5:
-                t.append(f"ADVECTION\n -shifts {rng.randint(1, 3)}\n" +
-                         (f" -initial_time {rng.choice(['0', '1000'])}\n" if rng.random() < 0.4 else ""))
-                w.count("ADVECTION_partial")
+            opts = AD_OPTS(rng, nc)
+            if w.adv == nc and rng.random() < 0.75:
+                # ADVECTION does not retain -cells (it is restated), the clock and time step are inherited
+                lines = ["ADVECTION", f" -cells {nc}"]
+                if rng.random() < 0.85:
+                    lines.append(f" -shifts {rng.randint(1, 3)}")
+                for k in sorted(opts):
+                    if rng.random() < 0.15:
+                        lines.append(f" -{k} {opts[k]}")
+                        w.ad_set.add(k)
+                    elif k in w.ad_set:
+                        w.count("ad_omit_" + k)
+                t.append("\n".join(lines) + "\n")
+                w.count("ADVECTION_followup")
             else:
-                t.append(f"ADVECTION\n -cells {nc}\n -shifts {rng.randint(1, 3)}\n -punch_cells 1-{nc}\n -print_cells 1\n" +
-                         (f" -time_step {rng.choice(['100', '3600'])}\n" if rng.random() < 0.4 else "") +
-                         (f" -initial_time {rng.choice(['500', '7200'])}\n" if rng.random() < 0.2 else ""))
+                lines = ["ADVECTION", f" -cells {nc}", f" -shifts {rng.randint(1, 3)}"]
+                w.ad_set = set()
+                for k in sorted(opts):
+                    if rng.random() < 0.6:
+                        lines.append(f" -{k} {opts[k]}")
+                        w.ad_set.add(k)
+                t.append("\n".join(lines) + "\n")
                 w.adv = nc
                 w.count("ADVECTION")
     elif kind == "cells" and w.sol:
@@ -469,6 +532,9 @@ def layout(rng, text):
 def multi_sim_input(rng, nsim=None, profile="phreeqc"):
     """returns (text, info).  Simulations are separated by END lines; the last simulation also ends with END."""
     w = World(profile)
+    w.theme = rng.choice([None] * 5 + ["transport"] * 3 + ["advect"])
+    if w.theme:
+        w.hist["theme_" + w.theme] = 1
     nsim = nsim or rng.choice([2, 3, 3, 4, 4, 5, 6, 7, 8])
     sims = []
     for i in range(nsim):
